@@ -79,6 +79,25 @@ def impl_run(case):
     probs = [p for _, p in h.distribution()]
     out["dist_sum"] = qv(sum(probs, Fraction(0)))
     out["dist_frac_ok"] = all(isinstance(p, Fraction) and p == Fraction(h[o], h.total or 1) for o, p in h.distribution())
+    # rational_t is called with exactly (count, total), once per outcome, and its exceptions are the caller's
+    calls = []
+
+    class Strict(Exception):
+        pass
+
+    def strict(n, d=None):
+        calls.append((n, d))
+        if d is None or type(n) is not int or type(d) is not int:
+            raise TypeError("rational_t takes (count, total)")
+        if len(calls) == 2:
+            raise TypeError("second outcome rejected")
+        return (n, d)
+    try:
+        list(h.distribution(rational_t=strict))
+        strict_ok = len(h) < 2
+    except TypeError:
+        strict_ok = len(h) >= 2 and len(calls) == 2 and all(d is not None for _, d in calls)
+    out["rational_t_ok"] = strict_ok
     xy = h.distribution_xy()
     out["xy_ok"] = (xy == () and len(h) == 0) or (len(xy) == 2 and list(xy[0]) == [o for o, _ in h.distribution()] == sorted(h.outcomes())
                     and all(isinstance(y, float) and y == float(p) for y, p in zip(xy[1], probs)))
@@ -190,7 +209,7 @@ def agree(case, r, o):
             return False
     elif abs(v - ov) > (abs(ov) + om ** 2 + 1) / 2 ** 36:
         return False
-    return r["sd_ok"] and r["scale_ok"] and r["pad_ok"] and r["add_ok"] and r.get("history_ok", True)
+    return r["sd_ok"] and r["scale_ok"] and r["pad_ok"] and r["add_ok"] and r.get("history_ok", True) and r.get("rational_t_ok", True)
 
 
 def nontrivial(case, r):
